@@ -151,6 +151,7 @@ impl<'s> BitReaderReversed<'s> {
     pub fn get_bits_triple(&mut self, n1: u8, n2: u8, n3: u8) -> (u64, u64, u64) {
         let sum = n1 + n2 + n3;
         if sum <= 56 {
+            vhit!(bits_triple_fast);
             self.refill();
 
             let triple = self.peek_bits_triple(sum, n1, n2, n3);
@@ -158,6 +159,7 @@ impl<'s> BitReaderReversed<'s> {
             return triple;
         }
 
+        vhit!(bits_triple_slow);
         (self.get_bits(n1), self.get_bits(n2), self.get_bits(n3))
     }
 }
